@@ -116,7 +116,7 @@ class ChromBuilder:
 
 
 def gen_chain_rgfa(rng, n_chrom=None, scaffolds=None, id_style=None, defects=None, len_hi=20,
-                   end_style=None, kinds=None, names=None):
+                   end_style=None, kinds=None, names=None, singletons=0):
     """defects: dict chrom_index -> one of 'tip', 'cycle3', 'cycle3_inner', 'hap_ap' (non-chain
     shapes) ; 'joined' joins chromosome i with i+1 through a haplotype node."""
     g = Graph()
@@ -180,6 +180,10 @@ def gen_chain_rgfa(rng, n_chrom=None, scaffolds=None, id_style=None, defects=Non
                 t = b.ref()
                 b.link(x, "+", t, "+")
         g.chroms.append({"name": name, "nodes": b.nodes, "defect": d})
+    for k in range(singletons):  # a chromosome that is one isolated segment without any link (chrM-like)
+        nm = ["chrMT", "chrUn_1", "chrEBV"][k % 3]
+        nid = g.add_node(ids.new(), nm, 0, rand_seq(rng, rng.randint(1, len_hi)), 0)
+        g.chroms.append({"name": nm, "nodes": [nid], "defect": None})
     if "joined" in defects.values():
         for ci, d in defects.items():
             if d == "joined" and ci + 1 < len(builders):
